@@ -264,6 +264,76 @@ def run_family(prop, name, cfgs, rand_cfg, binary, seed, tier, tlc_workers=3, ra
     return res
 
 
+def run_family_c20(name, cfgs, rand_cfg, binaries, seed, tier, tlc_workers=3, rand_count=200):
+    """C20: the same scenarios and decisions on three builds/configurations of the real code"""
+    prop = "C20"
+    if isinstance(cfgs, dict):
+        cfgs = [cfgs]
+    wd = os.path.join(WORK, f"{prop}_{name}")
+    shutil.rmtree(wd, ignore_errors=True)
+    os.makedirs(wd)
+    res = dict(name=name, fam=cfgs[0]["fam"], scenarios=len(cfgs))
+    t0 = time.time()
+    mc = "MC_" + name
+    mc_module(wd, mc, cfgs, prop)
+    rc, out, dt = tlc.run_tlc(wd, mc, workers=tlc_workers, timeout=3000)
+    if not tlc.tlc_ok(rc, out):
+        raise ToolError(f"TLC failed on model configuration {name}:\n" + tlc.error_excerpt(out, 60))
+    gen, dist, depth = tlc.parse_stats(out)
+    beh = tlc.parse_tagged(out, "BEH")
+    res.update(tlc_s=dt, states=dist, transitions=gen, depth=depth, behaviours=len(beh))
+    scen_file = os.path.join(wd, "scen.ndjson")
+    with open(scen_file, "w") as f:
+        for i, b in enumerate(beh):
+            c = cfgs[b["ci"] - 1]
+            f.write(json.dumps({"id": f"{name}.m{i}", "fam": c["fam"], "cfg": c, "drive": "replay",
+                                "script": b["script"]}) + "\n")
+        if rand_cfg is not None and rand_count > 0:
+            f.write(json.dumps({"id": f"{name}.r", "fam": rand_cfg["fam"], "cfg": rand_cfg, "drive": "rand",
+                                "seed": seed, "count": rand_count}) + "\n")
+    th = time.time()
+    files = {}
+    for tag, (binary, envx) in binaries.items():
+        files[tag] = os.path.join(wd, f"traces_{tag}.ndjson")
+        run_harness(binary, scen_file, files[tag], env_extra=envx)
+    res["harness_s"] = time.time() - th
+    drift = []
+    jf = os.path.join(wd, "judge.ndjson")
+    n = 0
+    recs = {}
+    with open(files["off"]) as fa, open(files["on"]) as fb, open(files["sub"]) as fc, open(jf, "w") as jout:
+        for la, lb, lc in zip(fa, fb, fc):
+            a, b, c = json.loads(la), json.loads(lb), json.loads(lc)
+            assert a["id"] == b["id"] == c["id"]
+            rid = str(a["id"])
+            n += 1
+            if rid.startswith(name + ".m"):
+                mb = beh[int(rid[len(name) + 2:])]
+                if a["obs"] != mb["obs"] or a["script"] != mb["script"]:
+                    drift.append(dict(kind="replay_differs", id=rid, script=mb["script"]))
+            jout.write(json.dumps({"id": rid, "cfg": a["cfg"], "obs": a["obs"], "obs_b": b["obs"],
+                                   "obs_c": c["obs"]}) + "\n")
+            if a["obs"] != b["obs"] or a["obs"] != c["obs"]:
+                recs[rid] = a
+            if n == 1:
+                res["sample"] = dict(script=a["script"], obs=[e for e in a["obs"] if e["k"] != "r"][:40])
+    viol, st, jdt = tlc.judge(wd, jf, prop, workers=tlc_workers, tag=name)
+    res["judge_s"] = jdt
+    hits = []
+    for v in viol:
+        a = recs.get(str(v["id"]))
+        if a is not None:
+            hits.append(dict(id=a["id"], cfg=a["cfg"], script=a["script"], obs=a["obs"], w=v["w"]))
+    res.update(replayed=sum(1 for _ in beh), dfs=0, rand=n - len(beh), drift=len(drift), drift_samples=drift[:3],
+               dfs_equals_model=False, impl_traces=3 * n, distinct_impl_traces=n, hits=hits,
+               judged_by_traceprops=n, judged_as_model_behaviour=0,
+               model_behaviours_with_witnesses=0)
+    res["wall_s"] = time.time() - t0
+    if not os.environ.get("VERIF_KEEP_WORK"):
+        shutil.rmtree(wd, ignore_errors=True)
+    return res
+
+
 def run_families(prop, fams, binary, seed, tier, jobs=5, rand_count=200, env_extra=None, twosub=False):
     results = []
     with cf.ThreadPoolExecutor(max_workers=jobs) as ex:
